@@ -518,10 +518,10 @@ func leafPaths(al *ssa.Alloc, target ssa.Instruction, tb *ssa.BasicBlock, fromEn
 	bad := ""
 	count := 0
 	type state struct {
-		cur      map[string]ssa.Value
-		alias    map[ssa.Value]ssa.Value
-		nonnil   map[ssa.Value]bool
-		nonzero  []ssa.Value
+		cur     map[string]ssa.Value
+		alias   map[ssa.Value]ssa.Value
+		nonnil  map[ssa.Value]bool
+		nonzero []ssa.Value
 	}
 	clone := func(s state) state {
 		n := state{cur: map[string]ssa.Value{}, alias: map[ssa.Value]ssa.Value{}, nonnil: map[ssa.Value]bool{}, nonzero: append([]ssa.Value{}, s.nonzero...)}
